@@ -837,34 +837,19 @@ func impliedConds(cond ssa.Value, pol bool) []Guard {
 		}
 		break
 	}
-	// `φ == nil` / `φ != nil` where only one incoming edge can carry such a value (an error
-	// result assigned on several branches): control came along that edge, so what held at the
-	// end of that predecessor holds here
-	if bo, isBo := cond.(*ssa.BinOp); isBo && (bo.Op == token.EQL || bo.Op == token.NEQ) && isNilConst(bo.Y) {
-		if ph, isPhi := bo.X.(*ssa.Phi); isPhi && depthImplied < 4 {
-			wantNil := (bo.Op == token.EQL) == pol
-			var cands []int
-			for i, e := range ph.Edges {
-				if wantNil && definitelyNonNil(e) {
-					continue
-				}
-				if !wantNil && isNilConst(e) {
-					continue
-				}
-				cands = append(cands, i)
-			}
-			if len(cands) == 1 {
-				depthImplied++
-				pred := ph.Block().Preds[cands[0]]
-				for _, g := range GuardsAt(pred) {
-					out = append(out, impliedConds(g.Cond, g.Pol)...)
-				}
-				if ifi, isIf := pred.Instrs[len(pred.Instrs)-1].(*ssa.If); isIf && pred.Succs[0] != pred.Succs[1] {
-					out = append(out, impliedConds(ifi.Cond, pred.Succs[0] == ph.Block())...)
-				}
-				depthImplied--
-			}
+	// `φ == nil`, `φ != nil`, `φ != -1` where only one incoming edge can carry such a value (an
+	// error or index result assigned on several branches): control came along that edge, so what
+	// held at the end of that predecessor holds here
+	if ph, k, ok := cameThrough(cond, pol); ok && depthImplied < 4 {
+		depthImplied++
+		pred := ph.Block().Preds[k]
+		for _, g := range GuardsAt(pred) {
+			out = append(out, impliedConds(g.Cond, g.Pol)...)
 		}
+		if ifi, isIf := pred.Instrs[len(pred.Instrs)-1].(*ssa.If); isIf && pred.Succs[0] != pred.Succs[1] {
+			out = append(out, impliedConds(ifi.Cond, pred.Succs[0] == ph.Block())...)
+		}
+		depthImplied--
 		return out
 	}
 	phi, ok := cond.(*ssa.Phi)
@@ -903,6 +888,15 @@ func (p *prover) addGuards(b *ssa.BasicBlock) {
 	for i := len(gs) - 1; i >= 0; i-- {
 		for _, g := range impliedConds(gs[i].Cond, gs[i].Pol) {
 			p.addCond(g.Cond, g.Pol, "guard "+Lit(g.Cond, g.Pol))
+		}
+		// a phi pinned to one incoming edge by the guard has that edge's value
+		if ph, k, ok := cameThrough(gs[i].Cond, gs[i].Pol); ok {
+			if _, _, isInt := intSize(p.w, ph.Type()); isInt {
+				a, b := p.lin(ph), p.lin(ph.Edges[k])
+				why := "guard " + Lit(gs[i].Cond, gs[i].Pol) + " pins the merged value to one incoming edge"
+				p.add(leq(a, b, why))
+				p.add(geq(a, b, why))
+			}
 		}
 	}
 }
